@@ -67,6 +67,9 @@ type Input struct {
 	// AsChildren: the datasource also implements the *AsChildren interfaces (the wrapper then takes
 	// the child lists as given: sorted by version, VersionIndex and ReverseOfPrevious filled in)
 	AsChildren bool
+	// Slow: found histories take a few milliseconds and honour the context (return ctx.Err() when it
+	// is cancelled); missing ones answer at once.  Not part of the model input.
+	Slow bool
 }
 
 func tns(t time.Time) int64 { return t.UnixNano() }
@@ -162,8 +165,9 @@ var errOther = errors.New("verif: datasource failure")
 var errMissing = errors.New("verif: not found")
 
 type ds struct {
-	in *Input
-	m  map[osm.FeatureID]*Hist
+	in  *Input
+	m   map[osm.FeatureID]*Hist
+	ctx context.Context // the context of the lookup in progress (Slow datasources only)
 }
 
 func newDS(in *Input) *ds {
@@ -176,6 +180,13 @@ func newDS(in *Input) *ds {
 
 func (d *ds) get(f osm.FeatureID) (*Hist, error) {
 	h := d.m[f]
+	if d.in.Slow && h != nil && h.Kind == 0 && d.ctx != nil {
+		select {
+		case <-time.After(15 * time.Millisecond):
+		case <-d.ctx.Done():
+			return nil, d.ctx.Err()
+		}
+	}
 	if h == nil || h.Kind == 1 {
 		return nil, errMissing
 	}
@@ -188,7 +199,9 @@ func (d *ds) get(f osm.FeatureID) (*Hist, error) {
 func (d *ds) NotFound(err error) bool { return err == errMissing }
 
 func (d *ds) NodeHistory(ctx context.Context, id osm.NodeID) (osm.Nodes, error) {
-	h, err := d.get(id.FeatureID())
+	d2 := *d
+	d2.ctx = ctx
+	h, err := d2.get(id.FeatureID())
 	if err != nil {
 		return nil, err
 	}
@@ -201,7 +214,9 @@ func (d *ds) NodeHistory(ctx context.Context, id osm.NodeID) (osm.Nodes, error) 
 }
 
 func (d *ds) WayHistory(ctx context.Context, id osm.WayID) (osm.Ways, error) {
-	h, err := d.get(id.FeatureID())
+	d2 := *d
+	d2.ctx = ctx
+	h, err := d2.get(id.FeatureID())
 	if err != nil {
 		return nil, err
 	}
@@ -214,7 +229,9 @@ func (d *ds) WayHistory(ctx context.Context, id osm.WayID) (osm.Ways, error) {
 }
 
 func (d *ds) RelationHistory(ctx context.Context, id osm.RelationID) (osm.Relations, error) {
-	h, err := d.get(id.FeatureID())
+	d2 := *d
+	d2.ctx = ctx
+	h, err := d2.get(id.FeatureID())
 	if err != nil {
 		return nil, err
 	}
@@ -300,8 +317,18 @@ type Outcome struct {
 }
 
 func (in *Input) options() []annotate.Option {
-	opts := []annotate.Option{annotate.Threshold(in.Threshold), annotate.IgnoreInconsistency(in.IgnoreIncons),
-		annotate.IgnoreMissingChildren(in.IgnoreMissing)}
+	// only what differs from the documented defaults is passed (30 minutes, nothing ignored), so
+	// that state leaking from one call into the next is not masked
+	var opts []annotate.Option
+	if in.Threshold != 30*time.Minute {
+		opts = append(opts, annotate.Threshold(in.Threshold))
+	}
+	if in.IgnoreIncons {
+		opts = append(opts, annotate.IgnoreInconsistency(true))
+	}
+	if in.IgnoreMissing {
+		opts = append(opts, annotate.IgnoreMissingChildren(true))
+	}
 	if in.HasFilter {
 		acc := map[osm.FeatureID]bool{}
 		for _, f := range in.Filter {
@@ -395,6 +422,36 @@ func (in *Input) TwoStep(batch []osm.FeatureID) (*Input, *Outcome) {
 		second.Parents = append(second.Parents, p2)
 	}
 	return &second, second.RunOn(b)
+}
+
+// PrefixStep models a late-arriving parent version: the first k parent versions are annotated
+// alone; then ALL versions are annotated together, the first k being the same, already annotated
+// objects (Updates non-empty).  It returns the input of the second call (references of the first k
+// parents as the first call left them) and its outcome; nil when the first call fails.
+func (in *Input) PrefixStep(k int) (*Input, *Outcome) {
+	first := *in
+	first.Parents = in.Parents[:k]
+	b1 := first.Build()
+	o1 := first.RunOn(b1)
+	if o1.Status != 0 {
+		return nil, nil
+	}
+	second := *in
+	second.Parents = nil
+	for pi, p := range in.Parents {
+		p2 := p
+		if pi < k {
+			p2.Refs = append([]Ref(nil), o1.Refs[pi]...)
+		}
+		second.Parents = append(second.Parents, p2)
+	}
+	b2 := in.Build()
+	if in.IsRel {
+		copy(b2.Relations[:k], b1.Relations)
+	} else {
+		copy(b2.Ways[:k], b1.Ways)
+	}
+	return &second, second.RunOn(b2)
 }
 
 // Zones: different *time.Location values, so that equal instants get different representations.
@@ -551,7 +608,7 @@ func Generate(rng *rand.Rand, g GenOpts) *Input {
 	if rng.Intn(6) == 0 {
 		in.Threshold = time.Duration(rng.Intn(7200)) * time.Second
 	}
-	regimes := []string{"commit", "commit", "old", "old", "nocommit", "mixed"}
+	regimes := []string{"commit", "commit", "old", "old", "nocommit", "mixed", "oldcommit"}
 	in.Regime = regimes[rng.Intn(len(regimes))]
 	if !g.Clean {
 		in.IgnoreIncons = rng.Intn(4) == 0
@@ -582,7 +639,7 @@ func Generate(rng *rand.Rand, g GenOpts) *Input {
 	switch in.Regime {
 	case "commit", "nocommit":
 		now = osm.CommitInfoStart.Add(time.Duration(1+rng.Intn(1000)) * 24 * time.Hour)
-	case "old":
+	case "old", "oldcommit":
 		now = osm.CommitInfoStart.Add(-time.Duration(400+rng.Intn(1000)) * 24 * time.Hour)
 	default: // mixed: the history straddles CommitInfoStart
 		now = osm.CommitInfoStart.Add(-time.Duration(1+rng.Intn(20)) * time.Hour)
@@ -603,6 +660,10 @@ func Generate(rng *rand.Rand, g GenOpts) *Input {
 		// element stamps for the current instant, per regime
 		old := now.Before(osm.CommitInfoStart)
 		switch {
+		case in.Regime == "oldcommit":
+			// data from before CommitInfoStart whose committed attribute IS populated (= timestamp)
+			c := Rezone(rng, now)
+			return Rezone(rng, now), &c
 		case in.Regime == "nocommit" || old:
 			return Rezone(rng, now), nil
 		default:
@@ -714,6 +775,16 @@ func Generate(rng *rand.Rand, g GenOpts) *Input {
 		now = now.Add(time.Second)
 		parentEdit()
 	}
+	if (in.Regime == "commit" || in.Regime == "nocommit") && rng.Intn(6) == 0 {
+		// a version dated far in the future (clock skew, synthetic imports)
+		now = time.Date(2100, 1, 1, 0, 0, rng.Intn(60), 0, time.UTC)
+		for _, c := range chs {
+			if c.exists && len(c.vers) < g.MaxVersions+1 {
+				childEdit(c)
+				break
+			}
+		}
+	}
 	// a clean history must not keep a child in a parent while it is deleted: drop nothing, the
 	// generator above never deletes in Clean mode.
 
@@ -751,9 +822,13 @@ func Generate(rng *rand.Rand, g GenOpts) *Input {
 		}
 		for pi := range in.Parents {
 			for ri := range in.Parents[pi].Refs {
-				if rng.Intn(2) == 0 {
-					r := &in.Parents[pi].Refs[ri]
+				r := &in.Parents[pi].Refs[ri]
+				switch rng.Intn(4) {
+				case 0, 1:
 					r.Version, r.Changeset, r.Lat, r.Lon = 1+rng.Intn(3), 77, 5, 6
+				case 2:
+					// location only, never annotated (pbf LocationsOnWays, overpass geometry)
+					r.Lat, r.Lon = 8, 9
 				}
 			}
 		}
